@@ -5,7 +5,8 @@ CONSTANTS MaxPre = 1 MaxN = 3
   Posts <- PostsSmall
   FlowKinds = {"ctx"}
   Drivers = {"run", "fill", "split"}
-  Places = {"alone", "middle"}
+  Places = {"alone", "middle", "afterstop"}
+  StopFlag = "per_branch"
   CopyMode = "per_branch"
   Bufs <- BufQuick
 INVARIANT DriversAgree
